@@ -147,14 +147,34 @@ func init() {
 			}
 			trees[i] = genFetched(r)
 		}
+		// exact replay (-case): the recorded tree ({"tree": nodes}, or the bare node list) takes an extra
+		// last slot and is run first, alone
+		replayIdx := -1
+		{
+			var wrapped struct {
+				Tree []PNode `json:"tree"`
+			}
+			var rt []PNode
+			if loadReplayInput(cfg, "sanitise", &wrapped) && len(wrapped.Tree) > 0 {
+				rt = wrapped.Tree
+			} else if !loadReplayInput(cfg, "sanitise", &rt) {
+				rt = nil
+			}
+			if len(rt) == 0 {
+				replayMissing(cfg, rep, "sanitise")
+			} else if why := unsafePNodes(rt, nil); why != "" {
+				rep.ReplayNote("refused: " + why)
+			} else {
+				replayIdx = n
+				trees = append(trees, rt)
+				reqs = append(reqs, "")
+				impl = append(impl, "")
+				human = append(human, nil)
+			}
+		}
 		var wg sync.WaitGroup
 		sem := make(chan struct{}, 16)
-		for i := 0; i < n; i++ {
-			wg.Add(1)
-			sem <- struct{}{}
-			go func(i int) {
-				defer wg.Done()
-				defer func() { <-sem }()
+		runTree := func(i int) {
 				nodes := trees[i]
 				arena := filepath.Join(work, fmt.Sprintf("z%06d", i))
 				target := filepath.Join(arena, "bundle")
@@ -183,7 +203,7 @@ func init() {
 				select {
 				case diags = <-done:
 				case <-time.After(20 * time.Second):
-					rep.AddOracle(OracleFailure{Property: "C19", Lane: "sanitise", What: "package preparation did not return", Input: nodes})
+					rep.AddOracle(OracleFailure{Property: "C19", Lane: "sanitise", What: "package preparation did not return", Input: map[string]interface{}{"tree": nodes}})
 					return
 				}
 				class := "ok"
@@ -310,6 +330,19 @@ func init() {
 					}
 				case <-time.After(20 * time.Second):
 				}
+		}
+		if replayIdx >= 0 {
+			rep.BeginReplay()
+			runTree(replayIdx)
+			rep.EndReplay(reqs[replayIdx])
+		}
+		for i := 0; i < n; i++ {
+			wg.Add(1)
+			sem <- struct{}{}
+			go func(i int) {
+				defer wg.Done()
+				defer func() { <-sem }()
+				runTree(i)
 			}(i)
 		}
 		wg.Wait()
